@@ -1,8 +1,23 @@
 #!/bin/sh
-# Build the Lean framework from files on disk only (offline).  Generated tables
-# (lean/QV/Gen) are produced by the checks themselves from /repo's current source.
+# Build the Lean framework from files on disk only (offline): the core library, every
+# property module registered in tools/theorems.json and what the model drivers import.
+# Generated tables (lean/QV/Gen) are produced by the checks themselves from /repo's
+# current source.
 set -e
 DIR="$(cd "$(dirname "$0")" && pwd)"
 cd "$DIR/lean"
 mkdir -p QV/Gen
-lake build QV
+MODS=$(python3 - <<'EOF'
+import json, re, pathlib
+root = pathlib.Path(".")
+mods = set(["QV"])
+data = json.loads((root / ".." / "tools" / "theorems.json").read_text())
+for v in data.values():
+    mods.update(v["modules"])
+for drv in root.glob("Driver*.lean"):
+    mods.update(re.findall(r"^import\s+(QV[\w.]*)", drv.read_text(), re.M))
+mods = {m for m in mods if (root / (m.replace(".", "/") + ".lean")).exists() and not m.startswith("QV.Gen")}
+print(" ".join(sorted(mods)))
+EOF
+)
+LEAN_NUM_THREADS=${LEAN_NUM_THREADS:-16} lake build $MODS
